@@ -65,6 +65,27 @@ Definition l_update_device_state (st : dstate) (dev : device) : dstate * option 
                                     d_keywarn := d_keywarn dev; d_nonces := [] |}), None)
   | None => (st, Some SNotFound)
   end.
+(* AdvanceFCntUp: UPDATE ... SET fcnt_up, key_warning WHERE eui = ? AND fcnt_up <= accepted - one statement *)
+Definition l_advance_fup (st : dstate) (accepted newfup : N) (kw : bool) : dstate * option serr :=
+  match ds_row st with
+  | Some r =>
+    if d_fup r <=? accepted
+    then (with_row st (Some {| d_eui := d_eui r; d_addr := d_addr r; d_appkey := d_appkey r; d_appskey := d_appskey r;
+                               d_nwkskey := d_nwkskey r; d_appeui := d_appeui r; d_state := d_state r;
+                               d_fup := newfup; d_fdn := d_fdn r; d_relaxed := d_relaxed r;
+                               d_keywarn := kw; d_nonces := [] |}), None)
+    else (st, Some SNotFound)
+  | None => (st, Some SNotFound)
+  end.
+(* NextFCntDn: UPDATE ... SET fcnt_dn = (fcnt_dn + 1) % 65536 ... RETURNING - the counter to use, its successor stored *)
+Definition l_next_fdn (st : dstate) : dstate * option N :=
+  match ds_row st with
+  | Some r => (with_row st (Some {| d_eui := d_eui r; d_addr := d_addr r; d_appkey := d_appkey r; d_appskey := d_appskey r;
+                                    d_nwkskey := d_nwkskey r; d_appeui := d_appeui r; d_state := d_state r;
+                                    d_fup := d_fup r; d_fdn := (d_fdn r + 1) mod 65536; d_relaxed := d_relaxed r;
+                                    d_keywarn := d_keywarn r; d_nonces := [] |}), Some (d_fdn r))
+  | None => (st, None)
+  end.
 (* UpdateDevice: everything but eui and application *)
 Definition l_update_device (st : dstate) (dev : device) : dstate * option serr :=
   match ds_row st with
